@@ -203,7 +203,7 @@ def _j(c):
     from pyunicorn.timeseries import JointRecurrencePlot, JointRecurrenceNetwork
     x = enc.represent(c["x"], c["case"])[0]
     y = enc.represent(c["y"], c["case"] + "y")[0]
-    key = "threshold" if c["mode"] == "thr" else "recurrence_rate"
+    key = {"thr": "threshold", "tstd": "threshold_std"}.get(c["mode"], "recurrence_rate")
     kw = {key: (c["p1n"] / c["p1d"], c["p2n"] / c["p2d"]), "metric": (c["mx"], c["my"]),
           "lag": c["lag"]}
     if c.get("dx", 1) > 1 or c.get("dy", 1) > 1:
